@@ -470,16 +470,27 @@ class Visitor(ast.NodeVisitor):
     def visit_Dict(self, node: ast.Dict) -> Union[Dict[Any, Any], Placeholder]:
         """Visit keys and values and assemble a dictionary with the results."""
         recomputed_dict = dict()  # type: Dict[Any, Any]
+        unpacked_placeholder = False
         for key, val in zip(node.keys, node.values):
-            assert isinstance(key, ast.AST)
             assert isinstance(val, ast.AST)
+
+            if key is None:
+                # ``**mapping`` in the display has no key node.
+                recomputed_mapping = self.visit(node=val)
+                if recomputed_mapping is PLACEHOLDER:
+                    unpacked_placeholder = True
+                else:
+                    recomputed_dict.update({**recomputed_mapping})
+                continue
+
+            assert isinstance(key, ast.AST)
 
             # The key is evaluated before the value, as Python does.
             recomputed_key = self.visit(node=key)
             recomputed_dict[recomputed_key] = self.visit(node=val)
 
         # Please see "NOTE ABOUT PLACEHOLDERS AND RE-COMPUTATION"
-        if any(
+        if unpacked_placeholder or any(
             key is PLACEHOLDER or value is PLACEHOLDER
             for key, value in recomputed_dict.items()
         ):
